@@ -22,3 +22,4 @@ def run(prog, rep):
     _rv9.run(prog, rep)
     from ..rules import r_close as _rcr
     _rcr.run_release(prog, rep)
+    _rcr.run(prog, rep)
